@@ -32,11 +32,18 @@ def run(chk, repo):
                         "self._not_playing.append((delta, iter(data)))")
     add = repo.find(LS, "Streamix.add")
     ab = docstring_free(add.body)
-    ok = len(ab) == 2 and isinstance(ab[0], ast.If) and unparse(ab[0].test) in ("delta < 0", "0 > delta") \
+    ok = len(ab) >= 2 and isinstance(ab[0], ast.If) and unparse(ab[0].test) in ("delta < 0", "0 > delta") \
         and isinstance(ab[0].body[0], ast.Raise) and "ValueError" in unparse(ab[0].body[0]) and not ab[0].orelse
     chk.decide(ok, "C16.add", W("Streamix.add"), short(ab[0]) if ab else "?", why="a negative delta must be rejected "
                "before anything is queued", node=add)
-    ok = len(ab) == 2 and unparse(ab[1]) == "self._not_playing.append((delta, iter(data)))"
+    loc_ = {unparse(s_.targets[0]): unparse(s_.value) for s_ in ab[1:-1] if isinstance(s_, ast.Assign)
+            and len(s_.targets) == 1 and isinstance(s_.targets[0], ast.Name)}
+    lastc = ab[-1].value if ab and isinstance(ab[-1], ast.Expr) and isinstance(ab[-1].value, ast.Call) else None
+    arg_ = None
+    if lastc is not None and unparse(lastc.func) == "self._not_playing.append" and len(lastc.args) == 1:
+        arg_ = unparse(lastc.args[0])
+        arg_ = loc_.get(arg_, arg_)
+    ok = arg_ == "(delta, iter(data))" and len(ab) - 2 == len(loc_)
     chk.decide(ok, "C16.add", W("Streamix.add"), short(ab[-1]), why="the event is queued last, as (delta, iterator)", node=add)
 
     chk.rule("C16.init", "queues: _not_playing = deque(), _playing = [], keep stored; the Stream wraps data_generator()")
@@ -95,8 +102,8 @@ def run(chk, repo):
     d0 = [s for s in mw.body if isinstance(s, ast.Assign) and unparse(s.targets[0]) == "data"]
     chk.decide(len(d0) == 1 and unparse(d0[0].value) == "zero", "C16.sum", Wd, short(d0[0]) if d0 else "data = zero missing",
                why="every sample starts from the zero value", node=mw)
-    fl = [s for s in mw.body if isinstance(s, ast.For)]
-    chk.require(len(fl) == 1 and unparse(fl[0].iter) == "self._playing", "data_generator: summation loop not found")
+    fl = [s for s in mw.body if isinstance(s, ast.For) and unparse(s.iter) == "self._playing"]
+    chk.require(len(fl) == 1, "data_generator: summation loop not found")
     sl = fl[0]
     ok = len(sl.body) == 1 and isinstance(sl.body[0], ast.Try)
     if ok:
@@ -115,20 +122,49 @@ def run(chk, repo):
         dels = [n for n in ast.walk(loop) if isinstance(n, ast.Delete) and any(target in unparse(t) for t in n.targets)]
         chk.decide(not muts and not dels, "C16.sum", Wd, "for ... in %s: body does not mutate %s" % (target, target),
                    why="mutating a list while iterating it skips elements: %s" % [short(m) for m in muts + dels], node=loop)
+    # removal: every remembered iterator leaves the playing list after the summation loop, and the remembered list is
+    # empty again when the next summation starts (reset after the removal, or created anew before each summation)
     rm = [s for s in mw.body if isinstance(s, ast.If) and unparse(s.test) == "to_remove"]
-    ok = len(rm) == 1 and [unparse(s) for s in rm[0].body] == ["for snd in to_remove:\n    self._playing.remove(snd)", "to_remove = []"]
-    chk.decide(ok, "C16.sum", Wd, short(rm[0], 120) if rm else "removal block missing",
+    rm_block = rm[0].body if rm else list(mw.body)
+    rloops = [s for s in rm_block if isinstance(s, ast.For) and unparse(s.iter) == "to_remove"]
+    resets = ("to_remove = []", "del to_remove[:]", "to_remove[:] = []", "to_remove.clear()")
+    okloop = len(rloops) == 1 and [unparse(s) for s in rloops[0].body] == ["self._playing.remove(%s)" % unparse(rloops[0].target)]
+    anchor = rm[0] if rm else (rloops[0] if rloops else None)
+    after_sum = anchor is not None and mw.body.index(anchor) > mw.body.index(sl)
+    reset_after = any(unparse(s) in resets for s in (rm[0].body if rm else mw.body[mw.body.index(anchor) + 1:] if anchor is not None else [])
+                      if not isinstance(s, ast.For))
+    fresh_before = any(unparse(s) == "to_remove = []" for s in mw.body[:mw.body.index(sl)])
+    init_before = any(isinstance(s, ast.Assign) and unparse(s) == "to_remove = []" for s in body)
+    ok = okloop and after_sum and (fresh_before or (reset_after and init_before))
+    chk.decide(ok, "C16.sum", Wd, short(anchor, 120) if anchor is not None else "removal block missing",
                why="finished iterators leave the playing list after the summation loop, and the list is reset", node=mw)
+    if not rm and anchor is not None:
+        rm = [anchor]
 
     chk.rule("C16.stop", "stop test 'not (self.keep or self._playing or self._not_playing)' -> break, placed after the "
                          "removal and before the single 'yield data' of the iteration")
-    brk = [s for s in mw.body if isinstance(s, ast.If) and any(isinstance(x, ast.Break) for x in s.body)]
+    brk = [s for s in mw.body if isinstance(s, ast.If) and not s.orelse and len(s.body) == 1 and (
+        isinstance(s.body[0], ast.Break) or (isinstance(s.body[0], ast.Return) and s.body[0].value is None))]
     ok = len(brk) == 1
     if ok:
-        t = brk[0].test
-        ok = isinstance(t, ast.UnaryOp) and isinstance(t.op, ast.Not) and isinstance(t.operand, ast.BoolOp) \
-            and isinstance(t.operand.op, ast.Or) \
-            and sorted(unparse(v) for v in t.operand.values) == ["self._not_playing", "self._playing", "self.keep"]
+        # true exactly when keep, the playing list and the pending queue are all false (any spelling)
+        atoms = ["self.keep", "self._playing", "self._not_playing"]
+
+        def tv(e, asg):
+            if isinstance(e, ast.UnaryOp) and isinstance(e.op, ast.Not):
+                return not tv(e.operand, asg)
+            if isinstance(e, ast.BoolOp):
+                vals = [tv(v, asg) for v in e.values]
+                return all(vals) if isinstance(e.op, ast.And) else any(vals)
+            if unparse(e) in asg:
+                return asg[unparse(e)]
+            raise KeyError(unparse(e))
+        import itertools as _it
+        try:
+            ok = all(tv(brk[0].test, dict(zip(atoms, vals))) == (not any(vals))
+                     for vals in _it.product((True, False), repeat=3))
+        except KeyError:
+            ok = False
     chk.decide(ok, "C16.stop", Wd, short(brk[0]) if brk else "stop test missing",
                why="the mixer ends exactly when nothing plays, nothing is pending and keep is off", node=mw)
     ys = [s for s in mw.body if isinstance(s, ast.Expr) and isinstance(s.value, ast.Yield)]
@@ -153,9 +189,24 @@ def run(chk, repo):
     cb = docstring_free(cs.body)
     chk.decide(unparse(cb[0]) == "self.value = value", "C16.control", W("ControlStream.__init__"), short(cb[0]),
                why="initial value stored as attribute", node=cs)
-    g = repo.find(LS, "ControlStream.__init__.data_generator")
-    gb = docstring_free(g.body)
-    ok = len(gb) == 1 and isinstance(gb[0], ast.While) and isinstance(gb[0].test, ast.Constant) and gb[0].test.value is True \
-        and [unparse(s) for s in gb[0].body] == ["yield self.value"]
-    chk.decide(ok, "C16.control", W("ControlStream.__init__.data_generator"), "; ".join(unparse(s) for s in gb),
-               why="the attribute must be read at every step (a value hoisted out of the loop never changes)", node=g)
+    g = repo.find(LS, "ControlStream.__init__.data_generator", required=False)
+    if g is not None:
+        gb = docstring_free(g.body)
+        ok = len(gb) == 1 and isinstance(gb[0], ast.While) and isinstance(gb[0].test, ast.Constant) and gb[0].test.value is True \
+            and [unparse(s) for s in gb[0].body] == ["yield self.value"]
+        chk.decide(ok, "C16.control", W("ControlStream.__init__.data_generator"), "; ".join(unparse(s) for s in gb),
+                   why="the attribute must be read at every step (a value hoisted out of the loop never changes)", node=g)
+    else:
+        # an endless generator expression whose element is the attribute load: evaluated at every step as well
+        ci = repo.find(LS, "ControlStream.__init__")
+        gens = [n for n in ast.walk(ci) if isinstance(n, ast.GeneratorExp)]
+        chk.require(len(gens) == 1, "ControlStream.__init__: neither data_generator nor a generator expression found")
+        ge = gens[0]
+        src_ = unparse(ge.generators[0].iter)
+        for a_ in ast.walk(ci):
+            if isinstance(a_, ast.Assign) and len(a_.targets) == 1 and unparse(a_.targets[0]) == src_:
+                src_ = unparse(a_.value)
+        endless = src_ in ("it.repeat(None)", "it.count()", "it.repeat(0)", "it.cycle([None])") \
+            and len(ge.generators) == 1 and not ge.generators[0].ifs
+        chk.decide(unparse(ge.elt) == "self.value" and endless, "C16.control", W("ControlStream.__init__"), short(ge),
+                   why="the attribute must be read at every step, endlessly", node=ge)
